@@ -279,3 +279,137 @@ Proof.
     apply child_active_core. exact CA.
   - exists (core b). split; [exact Fe|exact Ha].
 Qed.
+
+(** ** heights and the applied counter along the walks *)
+Definition hgt (l : list ent) (i : N) : Z := match cfind l i with Some e => e_h e | None => 0 end.
+Definition is_act (l : list ent) (i : N) : Prop := exists e, cfind l i = Some e /\ e_act e = true.
+
+Lemma hgt_static : forall l l' j, same_static l l' -> hgt l' j = hgt l j.
+Proof.
+  intros l l' j H. specialize (H j). unfold sfind in H. unfold hgt.
+  destruct (cfind l' j), (cfind l j); cbn in H; try discriminate; [inversion H; reflexivity|reflexivity].
+Qed.
+
+Lemma wf_parent_height : forall s x e,
+    wf s -> cfind (cores s) x = Some e -> x <> root _ _ s -> hgt (cores s) x = hgt (cores s) (e_par e) + 1.
+Proof.
+  intros s x e (ND & _ & HP & _) Hx Hr. pose proof (cfind_some _ _ _ Hx) as [Hid Hin].
+  destruct (HP e Hin) as (pe & Hpe & Hh & _); [congruence|].
+  unfold hgt. rewrite Hx, Hpe. exact Hh.
+Qed.
+
+Lemma find_cfind : forall s i b, find ccmd (blocks _ _ s) i = Some b -> cfind (cores s) i = Some (core b).
+Proof. intros s i b H. unfold cores. rewrite cfind_core, H. reflexivity. Qed.
+
+Record frame (s s' : cst) : Prop := mkFrame {
+  fr_wf : wf s';
+  fr_static : same_static (cores s) (cores s');
+  fr_root : root _ _ s' = root _ _ s;
+  fr_tip : tip _ _ s' = tip _ _ s }.
+
+Lemma frame_refl : forall s, wf s -> frame s s.
+Proof. intros s W. constructor; [exact W|apply same_static_refl|reflexivity|reflexivity]. Qed.
+Lemma frame_trans : forall a b c, frame a b -> frame b c -> frame a c.
+Proof.
+  intros a b c [W1 S1 R1 T1] [W2 S2 R2 T2]. constructor; [exact W2|eapply same_static_trans; eassumption|congruence|congruence].
+Qed.
+
+Ltac dbind H :=
+  match type of H with
+  | bind ?e _ = Ok _ => let E := fresh "E" in destruct e eqn:E; cbn [bind] in H; [|discriminate]
+  end.
+
+Lemma uw_arith : forall fuel s cur to pred s' w,
+    wf s -> unapplyWhile pstate ccmd cunexec fuel s cur to pred = Ok (s', w) ->
+    frame s s' /\ Z.of_N (napp _ _ s) = Z.of_N (napp _ _ s') + (hgt (cores s) cur - hgt (cores s) w).
+Proof.
+  induction fuel as [|f IH]; intros s cur to pred s' w W H; cbn in H.
+  - destruct (N.eqb cur to) eqn:E; [|discriminate]. inversion H; subst. apply N.eqb_eq in E. subst.
+    split; [apply frame_refl; exact W|lia].
+  - destruct (N.eqb cur to) eqn:E.
+    { inversion H; subst. apply N.eqb_eq in E. subst. split; [apply frame_refl; exact W|lia]. }
+    destruct (find ccmd (blocks pstate ccmd s) cur) as [bc|] eqn:Fc; [|discriminate].
+    destruct (find ccmd (blocks pstate ccmd s) to) as [bt|]; [|discriminate].
+    destruct (Z.leb (b_h ccmd bc) (b_h ccmd bt)); [discriminate|].
+    destruct (negb (pred bc)).
+    { inversion H; subst. split; [apply frame_refl; exact W|lia]. }
+    dbind H. destruct (unapply_core _ _ _ W E0) as (W1 & C1 & N1 & R1 & T1 & Hr & _).
+    destruct (IH _ _ _ _ _ _ W1 H) as (F & A).
+    assert (S1 : same_static (cores s) (cores a)) by (rewrite C1; apply same_static_cupd).
+    split.
+    + eapply frame_trans; [|exact F]. constructor; assumption.
+    + rewrite !(hgt_static _ _ _ S1) in A.
+      pose proof (wf_parent_height _ _ _ W (find_cfind _ _ _ Fc) Hr) as Hh. cbn in Hh.
+      change (e_par (core bc)) with (b_par ccmd bc) in Hh. lia.
+Qed.
+
+Lemma unapply_arith : forall s a b s',
+    wf s -> unapply pstate ccmd cunexec s a b = Ok s' ->
+    frame s s' /\ Z.of_N (napp _ _ s) = Z.of_N (napp _ _ s') + (hgt (cores s) a - hgt (cores s) b).
+Proof.
+  intros s a b s' W H. unfold unapply in H. dbind H. destruct a0 as [s1 w]. cbn in H.
+  destruct (N.eqb w b) eqn:Ew; inversion H; subst. apply N.eqb_eq in Ew. subst.
+  eapply uw_arith; eassumption.
+Qed.
+
+Fixpoint linked (l : list ent) (cur : N) (path : list N) : Prop :=
+  match path with
+  | [] => True
+  | x :: r => (exists e, cfind l x = Some e /\ e_par e = cur) /\ linked l x r
+  end.
+Lemma linked_static : forall l l' path cur, same_static l l' -> linked l cur path -> linked l' cur path.
+Proof.
+  intros l l' path. induction path as [|x r IH]; intros cur S H; [exact I|]. destruct H as [(e & He & Hp) Hl].
+  split; [|apply IH; assumption]. specialize (S x). unfold sfind in S. rewrite He in S.
+  destruct (cfind l' x) as [e'|]; cbn in S; [|discriminate]. inversion S. exists e'. split; [reflexivity|congruence].
+Qed.
+
+Lemma is_act_cupd_other : forall l i v j, is_act l j -> (v = true \/ j <> i) -> is_act (cupd l i v) j.
+Proof.
+  intros l i v j (e & He & Ha) Hv. exists (setact i v e). rewrite cfind_cupd', He. split; [reflexivity|].
+  unfold setact. destruct (N.eqb (e_id e) i) eqn:E; [|exact Ha].
+  destruct Hv as [->|Hn]; [reflexivity|]. apply N.eqb_eq in E. apply cfind_some in He. destruct He. congruence.
+Qed.
+
+Lemma last_cons_default : forall (l : list N) y d d', last (y :: l) d = last (y :: l) d'.
+Proof. induction l as [|z r IH]; intros y d d'; [reflexivity|]. change (last (z :: r) d = last (z :: r) d'). apply IH. Qed.
+
+Lemma ap_arith : forall path s from s' ok cur,
+    wf s -> linked (cores s) cur path -> apply_path pstate ccmd cexec cunexec s from path = Ok (s', ok) ->
+    frame s s' /\
+    (ok = true -> Z.of_N (napp _ _ s') = Z.of_N (napp _ _ s) + Z.of_nat (length path) /\
+                  (path <> [] -> is_act (cores s') (last path cur)) /\
+                  (forall j, is_act (cores s) j -> is_act (cores s') j)) /\
+    (ok = false -> Z.of_N (napp _ _ s) = Z.of_N (napp _ _ s') + (hgt (cores s) cur - hgt (cores s) from)).
+Proof.
+  induction path as [|x r IH]; intros s from s' ok cur W L H; cbn in H.
+  - inversion H; subst. split; [apply frame_refl; exact W|]. split; [|discriminate].
+    intros _. split; [cbn; lia|]. split; [intro C; congruence|auto].
+  - dbind H. destruct a as [s1 ok1]. destruct L as [(e & He & Hp) Lr]. destruct ok1.
+    + destruct (apply_ok_core _ _ _ W E) as (W1 & C1 & N1 & R1 & T1 & (e0 & He0 & Ha0)).
+      assert (S1 : same_static (cores s) (cores s1)) by (rewrite C1; apply same_static_cupd).
+      assert (F1 : frame s s1) by (constructor; assumption).
+      destruct (IH _ _ _ _ x W1 (linked_static _ _ _ _ S1 Lr) H) as (F & Ht & Hf).
+      split; [eapply frame_trans; eassumption|]. split.
+      * intros Hok. destruct (Ht Hok) as (A & B & C). split; [cbn [length]; lia|]. split.
+        -- intros _. destruct r as [|y r']; [|change (last (x :: y :: r') cur) with (last (y :: r') cur);
+                                                  rewrite (last_cons_default r' y cur x); apply B; discriminate].
+           cbn. apply C. rewrite C1. exists (setact x true e0). rewrite cfind_cupd', He0. split; [reflexivity|].
+           unfold setact. apply cfind_some in He0. destruct He0 as [Hid _]. rewrite Hid, N.eqb_refl. reflexivity.
+        -- intros j Hj. apply C. rewrite C1. apply is_act_cupd_other; [exact Hj|left; reflexivity].
+      * intros Hok. specialize (Hf Hok). rewrite !(hgt_static _ _ _ S1) in Hf.
+        assert (Hxr : x <> root _ _ s).
+        { intro. subst x. unfold c_applyBlock, applyBlock in E.
+          destruct (find ccmd (blocks pstate ccmd s) (root pstate ccmd s)); [|discriminate].
+          rewrite N.eqb_refl in E. discriminate. }
+        pose proof (wf_parent_height _ _ _ W He Hxr) as Hh. rewrite Hp in Hh. lia.
+    + destruct (apply_fail_core _ _ _ E) as (C1 & N1 & R1 & T1).
+      assert (W1 : wf s1) by (unfold wf; rewrite C1, R1, N1; exact W).
+      destruct (find ccmd (blocks pstate ccmd s1) x) as [bx|] eqn:Fx; [|discriminate].
+      dbind H. inversion H; subst s' ok; clear H. subst cur.
+      destruct (unapply_arith _ _ _ _ W1 E0) as (F & A).
+      assert (F1 : frame s s1) by (constructor; [exact W1|rewrite C1; apply same_static_refl|exact R1|exact T1]).
+      split; [eapply frame_trans; eassumption|]. split; [discriminate|]. intros _.
+      pose proof (find_cfind _ _ _ Fx) as Hx. rewrite C1, He in Hx. inversion Hx; subst e.
+      change (e_par (core bx)) with (b_par ccmd bx). rewrite C1, N1 in A. exact A.
+Qed.
